@@ -440,6 +440,24 @@ func c08Extra(pc *propCheck) {
 	default:
 		o.Result = &SolverResult{Status: "unsat", Solver: "bounded-witness-pool", Output: "no witness available: nothing checked"}
 	}
+	// which imports get a Require, and through which namespace, is not pinned by the contract of
+	// (Ctx).imports (mutate/results.md): the same kind of stand-in, one witness with a builtin, a plain
+	// and a trusted_ import
+	{
+		con := &Contract{FuncName: "(Ctx).imports", Pkg: translatorPkgs[0]}
+		vc := newVC(pc.P, "(Ctx).imports (bounded)")
+		pc.Results = append(pc.Results, &funcResult{vc: vc, con: con})
+		o := vc.oblige("bounded", "(Ctx).imports/bounded[exactly the non-builtin imports of the witness get a Require, trusted_ packages through the trusted namespace]", "true", "true", "")
+		rr := pc.replayTranslator(o, con)
+		if rr.Confirmed {
+			o.Goal = "false"
+			o.Result = &SolverResult{Status: "unknown", Solver: "bounded-witness-pool", Output: rr.Detail}
+		} else {
+			o.Result = &SolverResult{Status: "unsat", Solver: "bounded-witness-pool", Output: "witness package imports_mix translates to a file with exactly the expected import block (bounded, not a proof)"}
+		}
+		pc.Bounded = append(pc.Bounded, "(Ctx).imports: which imports get a Require is not pinned by its contract; witness package imports_mix through the real binary (bounded)")
+		pc.Obls = append(pc.Obls, o)
+	}
 	pc.Bounded = append(pc.Bounded, "(coq.File).Write: no contract (io.Writer effects); witness packages header_plain and header_import through the real binary (bounded)")
 	pc.Extra["bounded"] = pc.Bounded
 	pc.Obls = append(pc.Obls, o)
